@@ -56,6 +56,17 @@ func init() {
 			one(op, "", "x,w", []string{"w:2"}, "x:1,2:0", 0)
 			one(op, "", "w,x", []string{"w:2,1"}, "x:1,2,2:0", 0)
 		}
+		for _, op := range []string{"Add", "Mul", "Sub"} {
+			// a per-feature vector FIRST against a batch of rows (batch 1: shapes (H) and (1,H));
+			// a batch of column samples against a vector whose length equals the batch size
+			one(op, "", "w,x", []string{"w:2"}, "x:1,2:0", 0)
+			one(op, "", "x,w", []string{"w:2"}, "x:1,1:0", 0)
+			one(op, "", "w,x", []string{"w:3"}, "x:1,1:0", 0)
+		}
+		// values derived from the SHAPE of the batch (they change with the batch size)
+		addGraph([]gnode{{"Shape", "x", "s", ""}, {"ConstantOfShape", "s", "c", ""}, {"Add", "x,c", "o", ""}}, nil, []string{"o"}, []string{"x:1,2:0"}, []int{0})
+		addGraph([]gnode{{"Shape", "x", "s", ""}, {"Gather", "s,i0", "b", "axis=0"}, {"Concat", "b,two", "t", "axis=0"}, {"Reshape", "x,t", "r", ""}, {"Relu", "r", "o", ""}},
+			[]string{"i0:1:i64=0", "two:1:i64=2"}, []string{"o"}, []string{"x:1,2:0"}, []int{0})
 		for _, op := range []string{"Relu", "Sigmoid", "Tanh", "Abs", "Sin", "Atan"} {
 			one(op, "", "x", nil, "x:1,3:0", 0)
 		}
